@@ -176,6 +176,17 @@ void run(const char* type) {
         drive_binary<V, T>("C04", type, "rotr_vector", rp, [](V a, V b) { return avel::to_array(avel::rotr(a, b)); }, [](T a, T b, T& o) { o = M<T>::rotr(a, (long long)(uint64_t)(U)b); return true; });
     }
 
+    // self-aliasing forms: x op= x (shift amounts must stay within 0..bits, so the values are 0..bits)
+    {
+        std::vector<T> small;
+        for (int rep = 0; rep < 40; ++rep) for (int s = 0; s <= bits; ++s) small.push_back((T)((s * 7 + rep * 3) % (bits + 1)));
+        drive_unary<V, T>("C04", type, "shl_vector_self", small, [](V a) { a <<= a; return avel::to_array(a); }, [](T a, T& o) { o = M<T>::shl(a, (unsigned)(U)a); return true; });
+        drive_unary<V, T>("C04", type, "shr_vector_self", small, [](V a) { a >>= a; return avel::to_array(a); }, [](T a, T& o) { o = M<T>::shr(a, (unsigned)(U)a); return true; });
+        drive_unary<V, T>("C04", type, "and_self", vals, [](V a) { a &= a; return avel::to_array(a); }, [](T a, T& o) { o = a; return true; });
+        drive_unary<V, T>("C04", type, "xor_self", vals, [](V a) { a ^= a; return avel::to_array(a); }, [](T a, T& o) { (void)a; o = (T)0; return true; });
+        drive_unary<V, T>("C04", type, "rotl_vector_self", small, [](V a) { return avel::to_array(avel::rotl(a, a)); }, [](T a, T& o) { o = M<T>::rotl(a, (long long)(uint64_t)(U)a); return true; });
+    }
+
     // compile-time amounts
     std::vector<T> cv;
     if (bits <= 16 && big) cv = vals;
